@@ -33,6 +33,7 @@ type World struct {
 	UsedMirror []string
 	NoInline map[string]bool
 	InterestingTypes []types.Type
+	escaped  map[string]bool // heap-name prefixes (F:T.path) whose address escapes
 }
 
 func shortPkgPath(path string) string {
@@ -198,10 +199,7 @@ func (w *World) DefaultsFor(fn *ssa.Function) []*DefaultRule {
 }
 
 func matchPattern(pat, name string) bool {
-	if strings.HasSuffix(pat, "*") {
-		return strings.HasPrefix(name, strings.TrimSuffix(pat, "*"))
-	}
-	return pat == name
+	return strings.HasPrefix(name, strings.TrimSuffix(pat, "*"))
 }
 
 // ---- loops ---------------------------------------------------------------
@@ -329,4 +327,89 @@ func resultNames(sig *types.Signature) []string {
 		out = append(out, n)
 	}
 	return out
+}
+
+// computeEscapes finds the struct fields whose address is used for anything
+// but an immediate load, store or further field/element selection. Only such
+// fields can be written through a pointer of unknown provenance; all other
+// fields are written exclusively by Store instructions that name them,
+// which the mod-set analysis sees.
+func (w *World) computeEscapes() {
+	if w.escaped != nil {
+		return
+	}
+	w.escaped = map[string]bool{}
+	var check func(v ssa.Value, name string)
+	check = func(v ssa.Value, name string) {
+		refs := v.Referrers()
+		if refs == nil {
+			return
+		}
+		for _, r := range *refs {
+			switch u := r.(type) {
+			case *ssa.UnOp:
+				if u.Op == token.MUL {
+					continue
+				}
+				w.escaped[name] = true
+			case *ssa.Store:
+				if u.Addr == v && u.Val != v {
+					continue
+				}
+				w.escaped[name] = true
+			case *ssa.FieldAddr:
+				if u.X == v {
+					stt := u.X.Type().Underlying().(*types.Pointer).Elem().Underlying().(*types.Struct)
+					check(u, name+"."+stt.Field(u.Field).Name())
+					continue
+				}
+				w.escaped[name] = true
+			case *ssa.IndexAddr:
+				if u.X == v {
+					// element of an embedded array: elements live in E: space
+					continue
+				}
+				w.escaped[name] = true
+			case *ssa.DebugRef:
+				continue
+			default:
+				w.escaped[name] = true
+			}
+		}
+	}
+	for _, fn := range w.Funcs {
+		for _, b := range fn.Blocks {
+			for _, in := range b.Instrs {
+				fa, ok := in.(*ssa.FieldAddr)
+				if !ok {
+					continue
+				}
+				if _, inner := fa.X.(*ssa.FieldAddr); inner {
+					continue // handled from the chain root
+				}
+				stt := fa.X.Type().Underlying().(*types.Pointer).Elem()
+				st := stt.Underlying().(*types.Struct)
+				root := "F:" + heapTypeName(stt)
+				if _, isElem := fa.X.(*ssa.IndexAddr); isElem {
+					root = "E:" + heapTypeName(stt)
+				}
+				check(fa, root+"."+st.Field(fa.Field).Name())
+			}
+		}
+	}
+}
+
+// unstable reports whether a heap variable may be written through pointers
+// of unknown provenance (and therefore by a call we know nothing about).
+func (w *World) unstable(name string) bool {
+	w.computeEscapes()
+	if !strings.HasPrefix(name, "F:") {
+		return !strings.HasPrefix(name, "ghost:")
+	}
+	for p := range w.escaped {
+		if strings.HasPrefix(name, p) || strings.HasPrefix(p, name) {
+			return true
+		}
+	}
+	return false
 }
